@@ -36,28 +36,28 @@ const Block = 4096
 func Round4k(n int64) int64 { return (n + Block - 1) / Block * Block }
 
 type Cfg struct {
-	MaxSize   int64
-	Storage   string
-	Codec     string
-	Proxy     bool
-	Held      bool // allow uploads that stay open across steps
-	Failures  bool // allow failing uploads / faulty fetches
-	Servers   bool // start HTTP/gRPC front ends (needed for /status)
-	HardLimit int64
+	MaxSize              int64
+	Storage              string
+	Codec                string
+	Proxy                bool
+	Held                 bool // allow uploads that stay open across steps
+	Failures             bool // allow failing uploads / faulty fetches
+	Servers              bool // start HTTP/gRPC front ends (needed for /status)
+	HardLimit            int64
 	ExcludeRawShortFetch bool // steer around known finding F7 (counted)
 }
 
 type span struct{ lo, hi int } // logical-clock interval of the last use
 
 type held struct {
-	key    string
-	kind   cache.EntryKind
-	hash   string
-	size   int64
-	data   []byte
-	gate   *gateReader
-	done   chan error
-	admit  bool // harness-side prediction: reservation taken
+	key   string
+	kind  cache.EntryKind
+	hash  string
+	size  int64
+	data  []byte
+	gate  *gateReader
+	done  chan error
+	admit bool // harness-side prediction: reservation taken
 }
 
 type M struct {
@@ -72,9 +72,9 @@ type M struct {
 	Log   []string
 	Flags map[string]bool // what this history contained (non-triviality, labels)
 
-	casPool []gen.Blob
-	acKeys  []string
-	rawKeys []string
+	casPool  []gen.Blob
+	acKeys   []string
+	rawKeys  []string
 	Excluded int
 }
 
@@ -157,7 +157,7 @@ func (m *M) logf(format string, a ...any) {
 
 func (m *M) History() string { return strings.Join(m.Log, "\n") }
 
-func (m *M) touch(key string)     { m.Use[key] = span{m.Step, m.Step} }
+func (m *M) touch(key string) { m.Use[key] = span{m.Step, m.Step} }
 func (m *M) maybeTouch(key string) {
 	if u, ok := m.Use[key]; ok {
 		m.Use[key] = span{u.lo, m.Step}
